@@ -77,11 +77,11 @@ def handleF : List Sexp → Sexp
     | _, _ => app "err" [.atom "decode"]
   | [.atom "expandme", e] =>
     match ME.dec e with
-    | some e => (match (expand [] e : Except IErr (Exp Float)) with | .ok x => app "ok" [x.enc] | .error _ => app "err" [])
+    | some e => (match (expandChecked e : Except IErr (Exp Float)) with | .ok x => app "ok" [x.enc] | .error _ => app "err" [])
     | none => app "err" [.atom "decode"]
   | [.atom "unrolltext", e] =>
     match ME.dec e with
-    | some e => (match unroll [] e with | .ok u => app "ok" [.str u.text] | .error _ => app "err" [])
+    | some e => (match unrollChecked e with | .ok u => app "ok" [.str u.text] | .error _ => app "err" [])
     | none => app "err" [.atom "decode"]
   | _ => app "err" [.atom "bad-request"]
 
